@@ -18,7 +18,6 @@ def run(ctx):
                         'sqrt oracle returns either root of the encoded y', 'y != 0 (no 2-torsion on these curves)']
     chk.bounds.update({'coordinates': 'all values below q (6 x 64 symbolic bits each); all accepted byte strings', 'unwind': '98 / 194 with unwinding assertions'})
     chk.trusted += ['Kani 0.68 / CBMC 6.11']
-    chk.extra['states'] = None
 
 
 def replay(ctx, path):
